@@ -86,10 +86,10 @@ def validate(module: str, cfg: str, workdir: str, records: List[Any], expected_s
     return verdicts, total
 
 
-def export_by_print(module: str, cfg: str, workdir: str, workers: int = 8, env=None) -> List[Any]:
+def export_by_print(module: str, cfg: str, workdir: str, workers: int = 8, env=None, **tlc_kw) -> List[Any]:
     """(B) for modules whose input is grown inside the behaviour: the Export cfg makes TLC print every complete
     input once as  "X{json}"  (PrintT("X" \\o ToJson(inp))) and stops the search there."""
-    r = tlc.run_tlc(module, cfg, workdir, env=env, workers=workers, tag="\0")
+    r = tlc.run_tlc(module, cfg, workdir, env=env, workers=workers, tag="\0", **tlc_kw)
     out = []
     seen = set()
     for ln in r.output.splitlines():
